@@ -21,6 +21,8 @@ const MAX_INPUT: usize = 1 << 20;
 #[derive(Clone)]
 struct Input {
     origin: &'static str,
+    /// what the input is (crafted inputs carry their recipe); the class of binary inputs in signatures
+    kind: &'static str,
     bytes: Vec<u8>,
 }
 
@@ -276,7 +278,7 @@ fn build_corpus(codec: &Codec, args: &Args) -> (Vec<Input>, u64) {
         }
     }
     for v in &valid {
-        inputs.push(Input { origin: "valid", bytes: v.clone() });
+        inputs.push(Input { origin: "valid", kind: "valid", bytes: v.clone() });
     }
     let mut small: Vec<Vec<u8>> = valid.iter().filter(|v| v.len() <= 4096).cloned().collect();
     small.sort_by_key(Vec::len);
@@ -284,7 +286,7 @@ fn build_corpus(codec: &Codec, args: &Args) -> (Vec<Input>, u64) {
     for v in small.iter().rev().take(args.by_tier(2, 8)).chain(small.iter().take(1)) {
         let step = (v.len() / args.by_tier(300, 1500)).max(1);
         for cut in (0..v.len()).step_by(step) {
-            inputs.push(Input { origin: "truncated", bytes: v[..cut].to_vec() });
+            inputs.push(Input { origin: "truncated", kind: "truncated", bytes: v[..cut].to_vec() });
         }
     }
     // 3. structure-aware mutations
@@ -298,7 +300,7 @@ fn build_corpus(codec: &Codec, args: &Args) -> (Vec<Input>, u64) {
             }
             if let Some((_, m)) = mutate::mutate(codec, v, &mut rng) {
                 if m.len() <= MAX_INPUT {
-                    inputs.push(Input { origin: "mutated", bytes: m });
+                    inputs.push(Input { origin: "mutated", kind: "mutated", bytes: m });
                 }
             }
         }
@@ -320,21 +322,21 @@ fn build_corpus(codec: &Codec, args: &Args) -> (Vec<Input>, u64) {
             p.extend_from_slice(&b);
             b = p;
         }
-        inputs.push(Input { origin: "random", bytes: b });
+        inputs.push(Input { origin: "random", kind: "random", bytes: b });
     }
     let mut rng = case_rng(seed, codec.name, "rand-big", 0);
-    inputs.push(Input { origin: "random", bytes: rng.bytes(MAX_INPUT) });
+    inputs.push(Input { origin: "random", kind: "random", bytes: rng.bytes(MAX_INPUT) });
     // 5. crafted
-    let mut crafted: Vec<Vec<u8>> = Vec::new();
+    let mut crafted: Vec<(&'static str, Vec<u8>)> = Vec::new();
     if is_cborish(codec) {
         let raw = crafted_cbor();
         if codec.cbor_offset == 12 {
             let header: Vec<u8> = valid.first().map_or_else(|| b"EINT\x07\0\0\0\0\0\0\0".to_vec(), |v| v[..12.min(v.len())].to_vec());
             for r in raw {
                 if r.len() + 12 <= MAX_INPUT {
-                    crafted.push(eint_wrap(&header, &r));
+                    crafted.push(("cbor-crafted", eint_wrap(&header, &r)));
                 } else {
-                    crafted.push(eint_wrap(&header, &r[..MAX_INPUT - 12]));
+                    crafted.push(("cbor-crafted", eint_wrap(&header, &r[..MAX_INPUT - 12])));
                 }
             }
             // lying envelope lengths
@@ -344,31 +346,31 @@ fn build_corpus(codec: &Codec, args: &Args) -> (Vec<Input>, u64) {
                     v[8..12].copy_from_slice(&len.to_le_bytes());
                 }
                 v.extend_from_slice(&[0xa0]);
-                crafted.push(v);
+                crafted.push(("eint-lying-length", v));
             }
         } else {
-            crafted.extend(raw);
+            crafted.extend(raw.into_iter().map(|r| ("cbor-crafted", r)));
         }
     }
     if codec.family == Family::Binary {
-        crafted.extend(crafted_binary(&small));
+        crafted.extend(crafted_binary(&small).into_iter().map(|r| ("le-field-hostile-value", r)));
     }
     match codec.name {
-        "wsc.file" => crafted.extend(crafted_wsc(&small)),
+        "wsc.file" => crafted.extend(crafted_wsc(&small).into_iter().map(|r| ("wsc-lying-offset-count-range", r))),
         "wsc.store_envelope" => {
             // lying inner WSC behind an honest digest cannot be forged (private digest); header lies only
-            crafted.extend(crafted_wsc(&small.iter().map(|v| v[124.min(v.len())..].to_vec()).collect::<Vec<_>>()).into_iter().take(200));
+            crafted.extend(crafted_wsc(&small.iter().map(|v| v[124.min(v.len())..].to_vec()).collect::<Vec<_>>()).into_iter().take(200).map(|r| ("wsc-lying-offset-count-range", r)));
         }
-        "abi.eintlog" => crafted.extend(crafted_elog(&small)),
+        "abi.eintlog" => crafted.extend(crafted_elog(&small).into_iter().map(|r| ("elog-frame-length", r))),
         "wal.segment" => {
             let mut rng = case_rng(seed, codec.name, "reseal", 0);
-            crafted.extend(crafted_segment(&valid, &mut rng, args.by_tier(150, 3000)));
+            crafted.extend(crafted_segment(&valid, &mut rng, args.by_tier(150, 3000)).into_iter().map(|r| ("resealed-record", r)));
         }
         _ => {}
     }
-    for c in crafted {
+    for (kind, c) in crafted {
         if c.len() <= MAX_INPUT {
-            inputs.push(Input { origin: "crafted", bytes: c });
+            inputs.push(Input { origin: "crafted", kind, bytes: c });
         }
     }
     (inputs, harness_refusals)
@@ -547,11 +549,11 @@ fn failure_key(f: &Failure) -> String {
     }
 }
 
-fn input_class(codec: &Codec, bytes: &[u8]) -> &'static str {
+fn input_class(codec: &Codec, input: &Input) -> &'static str {
     if is_cborish(codec) {
-        cborx::crash_class_any(bytes)
+        cborx::crash_class_any(&input.bytes)
     } else {
-        "input"
+        input.kind
     }
 }
 
@@ -568,7 +570,7 @@ fn threshold(len: usize) -> u64 {
 #[allow(clippy::too_many_arguments)]
 fn process_decoder(codec: &Codec, lane: &Lane<'_>, inputs: &[Input], scratch: &Scratch, tag: &str, rep: &mut Report, st: &mut stats::Local, failed_idx: &mut Vec<usize>, skip: &[usize], budget: &Budget) -> bool {
     let skipset: std::collections::BTreeSet<usize> = skip.iter().copied().collect();
-    let classes: Vec<&'static str> = inputs.iter().map(|i| input_class(codec, &i.bytes)).collect();
+    let classes: Vec<&'static str> = inputs.iter().map(|i| input_class(codec, i)).collect();
     // batch files: small inputs together, big ones in groups of <= 4 MiB
     let mut groups: Vec<Vec<usize>> = Vec::new();
     let mut cur: Vec<usize> = Vec::new();
@@ -626,7 +628,7 @@ fn process_decoder(codec: &Codec, lane: &Lane<'_>, inputs: &[Input], scratch: &S
         while from < idx.len() {
             // once a crash signature has 6 witnesses, further inputs of that same input class are not run
             let mut skip_rel: Vec<usize> = (from..idx.len()).filter(|k| saturated.contains(classes[idx[*k]])).collect();
-            st.add("inputs_skipped_crash_class_already_witnessed_6x", skip_rel.iter().filter(|k| counted_skips.insert(**k)).count() as u64);
+            st.add("inputs_skipped_crash_class_already_witnessed", skip_rel.iter().filter(|k| counted_skips.insert(**k)).count() as u64);
             skip_rel.extend(crashed_rel.iter().copied().filter(|k| *k >= from));
             if (from..idx.len()).all(|k| skip_rel.contains(&k)) {
                 break;
@@ -715,7 +717,9 @@ fn process_decoder(codec: &Codec, lane: &Lane<'_>, inputs: &[Input], scratch: &S
                     let sig = format!("C13:{}:{fkey}:{class}{suffix}", codec.name);
                     let seen = sig_counts.entry(sig.clone()).or_insert(0);
                     *seen += 1;
-                    if *seen >= 6 && class != "other" && class != "input" {
+                    // crafted recipes need few witnesses; generic classes keep running much longer
+                    let generic = matches!(class, "other" | "valid" | "mutated" | "random" | "truncated");
+                    if *seen >= if generic { 25 } else { 6 } {
                         saturated.insert(class);
                     }
                     let mut replay_inputs = vec![hex(&inp.bytes)];
